@@ -79,6 +79,9 @@ func (e *Env) SetItem(name string, key, val []byte, prio int32, useSet bool) {
 	if e.Failed() {
 		return
 	}
+	if e.faultOutcome("Set", err, true) {
+		return
+	}
 	if useSet {
 		valid = model.ValidItem(key, val, 0)
 	}
@@ -144,6 +147,9 @@ func (e *Env) Delete(name string, key []byte) {
 	if e.Failed() {
 		return
 	}
+	if e.faultOutcome("Delete", err, true) {
+		return
+	}
 	if err != nil {
 		e.Failf("delete/unexpected-error", "Delete(%s): %v", kvString(key), err)
 		return
@@ -202,6 +208,9 @@ func (e *Env) Get(snap int, name string, key []byte) {
 	if e.Failed() {
 		return
 	}
+	if e.faultOutcome("Get", err, true) {
+		return
+	}
 	if err != nil {
 		e.Failf("get/unexpected-error", "Get(%s): %v", kvString(key), err)
 		return
@@ -240,6 +249,9 @@ func (e *Env) GetItem(snap int, name string, key []byte, withValue bool) {
 		e.tag("")
 	})
 	if e.Failed() {
+		return
+	}
+	if e.faultOutcome("GetItem", err, true) {
 		return
 	}
 	if err != nil {
@@ -282,6 +294,15 @@ func (e *Env) Exist(snap int, name string, key []byte) {
 	if e.Failed() {
 		return
 	}
+	if e.FaultFired() {
+		_, want := m.Get(key)
+		e.Stats["fault.fired/op=Exist"]++
+		if got != want {
+			e.Failf("C07/wrong-result-without-error/op=Exist/fault="+e.Fault.FiredKind.String(),
+				"Exist(%s) answered %v for a key whose presence is %v while the file failed a %s: a wrong result with no way to report the error", kvString(key), got, want, e.Fault.FiredKind)
+		}
+		return
+	}
 	_, want := m.Get(key)
 	if got != want {
 		e.Failf("exist/wrong-result", "Exist(%s) = %v, model %v", kvString(key), got, want)
@@ -318,6 +339,9 @@ func (e *Env) MinMax(snap int, name string, max, withValue bool) {
 		e.tag("")
 	})
 	if e.Failed() {
+		return
+	}
+	if e.faultOutcome("MinMax", err, true) {
 		return
 	}
 	if err != nil {
@@ -359,6 +383,9 @@ func (e *Env) Totals(snap int, name string) {
 		e.tag("")
 	})
 	if e.Failed() {
+		return
+	}
+	if e.faultOutcome("Totals", err, true) {
 		return
 	}
 	wn, wb := m.Totals()
@@ -403,6 +430,9 @@ func (e *Env) Visit(snap int, name string, kind VisitKind, target []byte, withVa
 	}
 	got, depths, err := e.rawVisit(c, kind, target, withValue, stop, tp)
 	if e.Failed() {
+		return
+	}
+	if e.faultOutcome("Visit", err, true) {
 		return
 	}
 	if err != nil {
@@ -511,6 +541,9 @@ func (e *Env) Flush() {
 	if e.Failed() {
 		return
 	}
+	if e.faultOutcome("Flush", err, true) {
+		return
+	}
 	if e.Cfg.MemOnly {
 		if err == nil {
 			e.Failf("flush/memory-only-accepted", "Flush on a memory-only store returned nil")
@@ -544,6 +577,10 @@ func (e *Env) Evict(name string, times int) {
 		}
 		e.tag("")
 	})
+	if e.FaultFired() {
+		e.Stats["fault.fired/op=Evict/"+e.Fault.FiredKind.String()]++
+		e.FaultOp = "Evict"
+	}
 }
 
 func (e *Env) Len(snap int, name string) {
@@ -563,6 +600,9 @@ func (e *Env) Len(snap int, name string) {
 		e.tag("")
 	})
 	if e.Failed() {
+		return
+	}
+	if e.faultOutcome("Len", err, true) {
 		return
 	}
 	if err != nil || n != int64(len(m.Items)) {
@@ -760,6 +800,11 @@ func (e *Env) SnapRevert(i int) {
 	if e.Failed() {
 		return
 	}
+	if e.faultOutcome("SnapRevert", err, true) {
+		// a snapshot whose FlushRevert failed has no usable state: release it
+		e.closeSnap(sn)
+		return
+	}
 	if err != nil {
 		e.Failf("snapshot/revert-error", "FlushRevert on a snapshot: %v", err)
 		return
@@ -825,6 +870,9 @@ func (e *Env) FlushRevert() {
 	if e.Failed() {
 		return
 	}
+	if e.faultOutcome("FlushRevert", err, true) {
+		return
+	}
 	if e.Cfg.MemOnly {
 		if err == nil {
 			e.Failf("flushrevert/memory-only-accepted", "FlushRevert on a memory-only store returned nil")
@@ -866,6 +914,9 @@ func (e *Env) CollWrite(name string) {
 	if e.Failed() {
 		return
 	}
+	if e.faultOutcome("CollWrite", err, true) {
+		return
+	}
 	if err != nil {
 		e.Failf("collwrite/unexpected-error", "Collection.Write: %v", err)
 	}
@@ -891,6 +942,11 @@ func (e *Env) CopyTo(snap int, flushEvery int) (dst *vfile.File) {
 	dst = vfile.New("copy-dst")
 	dst.KeepLog = true
 	dst.SetTag("CopyTo(dst)")
+	if e.DstFault != nil {
+		dst.Arm(e.DstFault)
+	}
+	dstF := dst
+	defer func() { e.LastDstCalls = dstF.Seq() }()
 	var srcBefore []byte
 	var wBefore int64
 	if e.F != nil {
@@ -905,8 +961,24 @@ func (e *Env) CopyTo(snap int, flushEvery int) (dst *vfile.File) {
 		e.tag("")
 	})
 	dst.SetTag("")
+	dst.Disarm()
 	if e.Failed() {
 		return
+	}
+	if e.DstFault != nil && e.DstFault.Fired {
+		e.Stats["fault.fired/op=CopyTo(dst)/"+e.DstFault.FiredKind.String()]++
+		e.FaultOp = "CopyTo(dst)"
+		if err == nil {
+			e.Failf("C07/error-swallowed/op=CopyTo(dst)/fault="+e.DstFault.FiredKind.String(),
+				"CopyTo returned no error although the destination file failed a %s call", e.DstFault.FiredKind)
+		}
+		if e.F != nil && (e.F.NWrites+e.F.NTruncs != wBefore || !bytes.Equal(srcBefore, e.F.Bytes())) {
+			e.Failf("copyto/source-file-changed", "a failed CopyTo wrote to or truncated its source file")
+		}
+		return nil
+	}
+	if e.faultOutcome("CopyTo", err, true) {
+		return nil
 	}
 	if err != nil || res == nil {
 		e.Failf("copyto/unexpected-error", "CopyTo: %v", err)
@@ -1128,4 +1200,40 @@ func (e *Env) markStale(name string) {
 			p.Stale = true
 		}
 	}
+}
+
+// FaultFired reports whether the armed fault hit a file call of the current operation.
+func (e *Env) FaultFired() bool {
+	if e.Fault == nil || !e.Fault.Fired {
+		return false
+	}
+	if e.Fault.FiredIn == "EvictSomeItems" && !strings.HasPrefix(e.CurOp, "Evict") {
+		// the failing call was issued by an EvictSomeItems nested in another
+		// API call (CopyTo evicts as it goes); EvictSomeItems has no error
+		// result, so the enclosing call is checked like a fault-free one.
+		if !e.nestedEvictCounted {
+			e.nestedEvictCounted = true
+			e.Stats["fault.fired/nested-EvictSomeItems"]++
+		}
+		return false
+	}
+	return true
+}
+
+// faultOutcome handles the result of an operation during which an injected
+// file fault fired: the call must have returned an error and is then treated
+// as having had no effect.  It returns true when the caller must stop.
+func (e *Env) faultOutcome(op string, err error, hasErr bool) bool {
+	if !e.FaultFired() {
+		return false
+	}
+	k := e.Fault.FiredKind.String()
+	e.Stats["fault.fired/op="+op+"/"+k]++
+	e.FaultOp = op
+	if hasErr && err == nil {
+		e.Failf("C07/error-swallowed/op="+op+"/fault="+k,
+			"%s returned no error although the file failed a %s call issued on its behalf (call %d of the operation, %d bytes requested, %d transferred)",
+			op, k, e.Fault.Nth, e.Fault.FiredLen, e.Fault.Partial)
+	}
+	return true
 }
